@@ -59,6 +59,27 @@ type Obs struct {
 
 const liveAtom = 40
 
+// TSH: the soft-delete model with a hook that starts a statement of its own
+type TSH struct {
+	ID        int64 `gorm:"primaryKey"`
+	Age       int64
+	Name      string
+	Nick      *string
+	Mark      int64
+	DeletedAt gorm.DeletedAt
+}
+
+func (TSH) TableName() string { return "tss" }
+
+var hookCounts []int64
+
+func (t *TSH) AfterFind(tx *gorm.DB) error {
+	var n int64
+	err := tx.Model(&whr.TS{}).Count(&n).Error
+	hookCounts = append(hookCounts, n)
+	return err
+}
+
 // association paths: an Owner has many soft-deletable Kids; a Pet belongs to a soft-deletable Keeper
 type Owner struct {
 	ID   int64 `gorm:"primaryKey"`
@@ -74,6 +95,14 @@ type Kid struct {
 type Keeper struct {
 	ID        int64 `gorm:"primaryKey"`
 	Name      string
+	DeletedAt gorm.DeletedAt
+	Wards     []Ward
+}
+
+// Ward: a soft-deletable has-many of Keeper (nested preload under a joined relation)
+type Ward struct {
+	ID        int64 `gorm:"primaryKey"`
+	KeeperID  int64
 	DeletedAt gorm.DeletedAt
 }
 type Pet struct {
@@ -111,7 +140,7 @@ type state map[int64]string // id -> "mark|deleted_at"
 
 func (e *env) dump() state {
 	st := state{}
-	rows, err := e.db.Raw("SELECT id, mark, deleted_at FROM tss ORDER BY id").Rows()
+	rows, err := e.db.Raw("SELECT id, mark, deleted_at FROM " + whr.Table() + " ORDER BY id").Rows()
 	if err != nil {
 		return st
 	}
@@ -130,15 +159,19 @@ func (e *env) dump() state {
 }
 
 func (e *env) reset(in Input, twins bool) error {
-	if err := e.db.Exec("DELETE FROM tss").Error; err != nil {
+	if err := e.db.Exec("DELETE FROM " + whr.Table()).Error; err != nil {
 		return err
 	}
 	for _, r := range in.Rows {
-		if err := e.db.Exec("INSERT INTO tss (id, age, name, nick, mark, deleted_at) VALUES (?,?,?,?,0,NULL)", r.ID, r.Age, r.Name, r.Nick).Error; err != nil {
+		var live interface{}
+		if in.Variant == "zerovalue" {
+			live = whr.ZeroValueLive
+		}
+		if err := e.db.Exec("INSERT INTO "+whr.Table()+" (id, age, name, nick, mark, deleted_at) VALUES (?,?,?,?,0,?)", r.ID, r.Age, r.Name, r.Nick, live).Error; err != nil {
 			return err
 		}
 		if twins {
-			if err := e.db.Exec("INSERT INTO tss (id, age, name, nick, mark, deleted_at) VALUES (?,?,?,?,0,?)", r.ID+100, r.Age, r.Name, r.Nick, t1).Error; err != nil {
+			if err := e.db.Exec("INSERT INTO "+whr.Table()+" (id, age, name, nick, mark, deleted_at) VALUES (?,?,?,?,0,?)", r.ID+100, r.Age, r.Name, r.Nick, t1).Error; err != nil {
 				return err
 			}
 		}
@@ -165,6 +198,7 @@ func changed(a, b state, pred func(id int64) bool) []int64 {
 
 func (e *env) run(in Input) Obs {
 	o := Obs{}
+	whr.SoftVariant = in.Variant
 	fail := func(w string, err error) {
 		if err != nil {
 			o.Errs = append(o.Errs, w+": "+err.Error())
@@ -185,14 +219,14 @@ func (e *env) run(in Input) Obs {
 	fail("livetext", err)
 	texts[liveAtom] = []string{lt}
 	o.Texts = texts
-	truth, errs := whr.TruthTables(db, "tss", in.Atoms, texts)
+	truth, errs := whr.TruthTables(db, whr.Table(), in.Atoms, texts)
 	for _, err := range errs {
 		fail("truth", err)
 	}
 	// live atom truth: deleted_at IS NULL
 	{
 		var ids []int64
-		fail("ids", db.Raw("SELECT id FROM tss ORDER BY id").Scan(&ids).Error)
+		fail("ids", db.Raw("SELECT id FROM "+whr.Table()+" ORDER BY id").Scan(&ids).Error)
 		o.AllIDs = ids
 		for _, id := range ids {
 			if id < 100 {
@@ -264,6 +298,42 @@ func (e *env) run(in Input) Obs {
 		o.UnscopedFind = sorted(whr.IDsOf(dst))
 		o.UnscopedSQL, _ = whr.WhereText(db, build(db).Unscoped())
 	}
+	// statements started from inside an Unscoped statement did not ask for Unscoped themselves: an
+	// explicit Session{NewDB}, the handle given to a FindInBatches callback, the handle given to a
+	// model hook all see the live rows only
+	if in.Variant != "zerovalue" { // (the hook model reads table tss)
+		nlive := int64(len(in.Rows))
+		dst := whr.NewSoftSlice(in.Variant)
+		fail("newdb_find", build(db).Unscoped().Session(&gorm.Session{NewDB: true}).Find(dst).Error)
+		if got := sorted(whr.IDsOf(dst)); len(got) != len(in.Rows) || (len(got) > 0 && got[len(got)-1] > 100) {
+			o.Errs = append(o.Errs, fmt.Sprintf("Session{NewDB} derived from an Unscoped chain sees %v", got))
+		}
+		batch := whr.NewSoftSlice(in.Variant)
+		calls := 0
+		fail("unscoped_batches", db.Unscoped().FindInBatches(batch, 4, func(tx *gorm.DB, n int) error {
+			calls++
+			if calls > 3*len(in.Rows)+3 {
+				return fmt.Errorf("runaway")
+			}
+			var c int64
+			if err := tx.Model(whr.NewSoftOne(in.Variant)).Count(&c).Error; err != nil {
+				return err
+			}
+			if c != nlive {
+				o.Errs = append(o.Errs, fmt.Sprintf("Count in the callback of an Unscoped FindInBatches: %d, live rows %d", c, nlive))
+			}
+			return nil
+		}).Error)
+		hookCounts = nil
+		var hs []TSH
+		fail("unscoped_hook_find", db.Unscoped().Find(&hs).Error)
+		for _, c := range hookCounts {
+			if c != nlive {
+				o.Errs = append(o.Errs, fmt.Sprintf("Count in an AfterFind hook under an Unscoped Find: %d, live rows %d", c, nlive))
+				break
+			}
+		}
+	}
 	// Update
 	writes := func(twins bool, upd, updTwins, del, delTwins, delAgain *[]int64) {
 		fail("reset", e.reset(in, twins))
@@ -331,14 +401,16 @@ func (e *env) assoc(in Input, twins bool) ([][]int64, [][]int64, []string) {
 			errs = append(errs, w+": "+err.Error())
 		}
 	}
-	for _, t := range []string{"owners", "kids", "keepers", "pets"} {
+	for _, t := range []string{"owners", "kids", "keepers", "pets", "wards"} {
 		fail("reset", db.Exec("DELETE FROM "+t).Error)
 	}
 	for k := int64(0); k < 3; k++ {
 		fail("ins", db.Exec("INSERT INTO owners (id, name) VALUES (?,?)", k+1, "o").Error)
 		fail("ins", db.Exec("INSERT INTO keepers (id, name, deleted_at) VALUES (?,?,NULL)", k+1, "k").Error)
 		fail("ins", db.Exec("INSERT INTO pets (id, keeper_id) VALUES (?,?)", k+1, k+1).Error)
+		fail("ins", db.Exec("INSERT INTO wards (id, keeper_id, deleted_at) VALUES (?,?,NULL)", k+1, k+1).Error)
 		if twins {
+			fail("ins", db.Exec("INSERT INTO wards (id, keeper_id, deleted_at) VALUES (?,?,?)", k+101, k+1, t1).Error)
 			fail("ins", db.Exec("INSERT INTO keepers (id, name, deleted_at) VALUES (?,?,?)", k+101, "k", t1).Error)
 			fail("ins", db.Exec("INSERT INTO pets (id, keeper_id) VALUES (?,?)", k+11, k+101).Error)
 		}
@@ -467,6 +539,45 @@ func (e *env) assoc(in Input, twins bool) ([][]int64, [][]int64, []string) {
 	fail("unscoped_preload", db.Preload("Kids", func(d *gorm.DB) *gorm.DB { return d.Unscoped() }).Order("id").Find(&owners).Error)
 	for _, o := range owners {
 		uout = append(uout, kidIDs(o.Kids))
+	}
+	// a preload nested under a joined relation, scoped and Unscoped, slice and single destination
+	wardIDs := func(k *Keeper) []int64 {
+		ids := []int64{}
+		if k != nil {
+			for _, w := range k.Wards {
+				ids = append(ids, w.ID)
+			}
+		}
+		return sorted(ids)
+	}
+	pets = nil
+	fail("joins_nested_preload", db.Joins("Keeper").Preload("Keeper.Wards").Order("pets.id").Find(&pets).Error)
+	for _, p := range pets {
+		if p.ID < 10 {
+			out = append(out, wardIDs(p.Keeper))
+		}
+	}
+	pets = nil
+	fail("unscoped_joins_nested_preload", db.Unscoped().Joins("Keeper").Preload("Keeper.Wards").Order("pets.id").Find(&pets).Error)
+	for _, p := range pets {
+		if p.ID < 10 {
+			uout = append(uout, wardIDs(p.Keeper))
+		}
+	}
+	pets = nil
+	fail("unscoped_nested_preload", db.Unscoped().Preload("Keeper.Wards").Order("id").Find(&pets).Error)
+	for _, p := range pets {
+		if p.ID < 10 {
+			uout = append(uout, wardIDs(p.Keeper))
+		}
+	}
+	{
+		var one Pet
+		fail("unscoped_joins_nested_preload_first", db.Unscoped().Joins("Keeper").Preload("Keeper.Wards").First(&one, 2).Error)
+		uout = append(uout, wardIDs(one.Keeper))
+		var sc Pet
+		fail("joins_nested_preload_first", db.Joins("Keeper").Preload("Keeper.Wards").First(&sc, 2).Error)
+		out = append(out, wardIDs(sc.Keeper))
 	}
 	// association mode WRITES with Association.Unscoped() (no db.Unscoped()): the related rows are
 	// deleted through their soft-delete model, i.e. marked and never removed; rows already marked
@@ -598,7 +709,7 @@ func main() {
 	whr.NoIDAtoms = true // a twin differs from its original in the key only
 	db, _, _, err := gdb.Open(gdb.Opt{Config: &gorm.Config{NowFunc: func() time.Time { return t2 }}})
 	lib.Must(err)
-	lib.Must(db.AutoMigrate(&whr.TS{}, &Owner{}, &Kid{}, &Keeper{}, &Pet{}))
+	lib.Must(db.AutoMigrate(&whr.TS{}, &whr.TSZ{}, &Owner{}, &Kid{}, &Keeper{}, &Pet{}, &Ward{}))
 	e := &env{db: db}
 	out := lib.NewOut(a.Out, "C08")
 	out.PerFile = 60
@@ -661,12 +772,12 @@ func main() {
 			add("pattern", Input{Rows: genRows(r), Atoms: in0.Atoms, Chain: ch})
 			if i < 6 {
 				// the first patterns (no condition, one condition) also on every other declaration
-				for _, v := range []string{"ptr", "embedded", "named"} {
+				for _, v := range []string{"ptr", "embedded", "named", "zerovalue"} {
 					add("pattern", Input{Rows: genRows(r), Atoms: in0.Atoms, Chain: ch, Variant: v})
 				}
 			}
 		}
-		for _, v := range []string{"", "ptr", "embedded", "named"} {
+		for _, v := range []string{"", "ptr", "embedded", "named", "zerovalue"} {
 			add("pattern", Input{Rows: genRows(r), Atoms: in0.Atoms, Variant: v})
 		}
 	}
@@ -680,7 +791,7 @@ func main() {
 	for i := 0; i < budget; i++ {
 		in := Input{Rows: genRows(r), Atoms: whr.GenAtoms(r, names, nicks)}
 		if r.Chance(1, 3) {
-			in.Variant = lib.Pick(r, []string{"ptr", "embedded", "named"})
+			in.Variant = lib.Pick(r, []string{"ptr", "embedded", "named", "zerovalue"})
 		}
 		g := whr.NewGen(r, in.Atoms)
 		hostile := r.Chance(1, 2)
